@@ -1381,9 +1381,11 @@ def xmodel_case(args):
     ops = coq_list("(%s, %s, %s)" % (xcoq_vlist(xs), xcoq_vlist(ys),
                                      coq_list("mkOp %s %d %d %d %d" % (D.TAGS[o[0]], o[1], o[2], o[3], o[4]) for o in op))
                    for xs, ys, op in ot)
-    expr = "yrun_sx %s %s %s %s %s %s" % (D.coq_udiff_table(ut), ops, coq_cfg(zip_, thr, sp["private"]), xcoq_opts(sp),
-                                           x_to_coq(a), x_to_coq(b))
-    return expr, obs, tile_ok, len(ot)
+    expr = "%s %s %s %s %s %s %s" % ("ymrun_sx" if fam == "memo" else "yrun_sx", D.coq_udiff_table(ut), ops,
+                                      coq_cfg(zip_, thr, sp["private"]), xcoq_opts(sp), x_to_coq(a), x_to_coq(b))
+    # the guard of C11x_never_raises_partial as a Coq boolean on this real run: safe => the implementation did not raise
+    gexpr = "ysafe_sx %s %s %s %s" % (xcoq_opts(sp), x_to_coq(a), x_to_coq(b), core.coq_bool(obs[0] == "raised"))
+    return expr, obs, tile_ok, len(ot), gexpr, ("unsafe" if obs[0] == "raised" else None)
 
 
 def xsingles(rng):
@@ -2031,6 +2033,60 @@ def focus_pairs(rng, n):
     return out
 
 
+def memo_pairs(rng, n):
+    """[(a, b, spec)] - sets whose members are ==-equal numbers of different type / representation (1, 1.0, True, Decimal('1'),
+    Decimal('1.0'), an Enum member of value 1), at several positions of one value so that the ORDER in which the run's DeepHash
+    memo table is filled matters, under exclude_types / significant_digits / use_enum_value / ignore_numeric_type_changes"""
+    out = []
+    classes = [[1, 1.0, True, Decimal("1"), Decimal("1.0"), E.A, G.P], [2, 2.0, Decimal("2"), G.T], [1.5, Decimal("1.5"), Decimal("1.50"), G.W],
+               [0, 0.0, False, Decimal("0")], ["x", b"x", E.B]]
+    for _ in range(n):
+        sp = mk()
+        r = rng.random()
+        if r < 0.35:
+            sp["excl"] = rng.choice([["float"], ["int"], ["Decimal"], ["bool"], ["int", "Decimal"]])
+        elif r < 0.5:
+            sp["sig"] = rng.choice([0, 1, 2])
+        elif r < 0.62:
+            sp["enum"] = True
+        elif r < 0.72:
+            sp["numty"] = True
+        elif r < 0.8:
+            sp["enum"] = True
+            sp["excl"] = rng.choice([["int"], ["float"]])
+        elif r < 0.86:
+            sp["strty"] = True
+
+        def mset():
+            items = []
+            for cl in rng.sample(classes, rng.randint(1, 3)):
+                items.append(rng.choice(cl))
+            if rng.random() < 0.3:
+                items.append(rng.choice(["z", 7, 8.5]))
+            items = distinct(items)
+            return set(items) if rng.random() < 0.8 else frozenset(items)
+        k = rng.randint(1, 3)
+        s1 = [mset() for _ in range(k)]
+        s2 = [type(x)(distinct([rng.choice([q for cl in classes if any(_eq(q0, y) and type(q0) is type(y) for q0 in cl) for q in cl] or [y])
+                                if rng.random() < 0.7 else y for y in x])) for x in s1]
+        shape = rng.choice(["list", "dict", "dict_rev", "root", "nested"])
+        if shape == "root":
+            a, b = s1[0], s2[0]
+        elif shape == "list":
+            a, b = [[x] for x in s1], [[x] for x in s2]
+        elif shape == "nested":
+            a, b = {"p": [s1[0], 1], "q": tuple(s1[1:])}, {"q": tuple(s2[1:]), "p": [s2[0], 1]}
+        else:
+            keys = ["k%d" % i for i in range(k)]
+            a = dict(zip(keys, s1))
+            items = list(zip(keys, s2))
+            if shape == "dict_rev":
+                items.reverse()
+            b = dict(items)
+        out.append((a, b, sp))
+    return out
+
+
 def has_bytes_key(*vals):
     return any(isinstance(k, bytes) for v in vals for k in walk_keys(v, []))
 
@@ -2266,7 +2322,7 @@ def run(ctx):
     global _XU
     _XU = True
     per_spec = 450 if thorough else 26
-    xjobs, ojobs = [], []
+    xjobs, ojobs, mjobs2 = [], [], []
     for name, sp in xspecs(rng):
         for fam, a, b, log in gen_pairs(rng, sp, per_spec, True):
             zip_ = rng.random() < 0.4
@@ -2275,8 +2331,12 @@ def run(ctx):
             if not (in_xuniverse(a) and in_xuniverse(b)):
                 ctx.count("xcorr_skipped:outside_universe")
                 continue
-            if xset_alias(a, b, sp) and (not sp["numty"] or sp["excl"] or sp["enum"]):
-                ctx.count("xcorr_skipped:set_alias(K2 memo)")
+            if sp["enum"] and enum_meets_container(a, b):
+                ctx.count("xcorr_skipped:str_valued_enum_member_meets_container")
+                continue
+            if xset_alias(a, b, sp):
+                # ==-equal set members of different type / representation: the run's DeepHash memo table decides (K2): Options/YMemo.v
+                mjobs2.append((a, b, sp, zip_, thr, "memo", name))
                 continue
             if sp["enum"] and enum_meets_container(a, b):
                 ctx.count("xcorr_skipped:str_valued_enum_member_meets_container")
@@ -2294,7 +2354,9 @@ def run(ctx):
              (E.A, E.C, mk()), (E.B, E.D, mk(case=True)), (E.A, G.P, mk()), (E.A, G.P, mk(enum=True)), (E.A, 1.0, mk(enum=True)),
              (E.A, "1.00", mk(enum=True, sig=2)), (G.U, NANS[0], mk(enum=True, nan=True)), (NANS[0], G.U, mk(enum=True, nan=True)),
              (Decimal("1.5"), Decimal("1.50"), mk()), (Decimal("1.5"), 1.5, mk(numty=True)), (Decimal("2.675"), 2.675, mk(numty=True, eps=0.0)),
-             (datetime.time(1, 2, 3), datetime.time(1, 2, 3, 500000), mk(trunc="second")), (datetime.time(1, 2, 3), 3723, mk(numty=True))]
+             (datetime.time(1, 2, 3), datetime.time(1, 2, 3, 500000), mk(trunc="second")), (datetime.time(1, 2, 3), 3723, mk(numty=True)),
+             ([1, 1.5], [1.75, 1.75, 1.5], mk()), ([1, 1.5], [1.75, 1.75, 1.5], mk(eps=0.5)),     # comp_default_mode_refuted
+             (Decimal("1.5"), Decimal("1.50"), mk(nan=True, eps=0.0)), ({Decimal("2.5"): Decimal("1.5")}, {Decimal("2.50"): Decimal("1.50")}, mk(sig=2, case=True))]
     for a, b, sp in xhand + [(w[1], w[2], w[3]) for w in WITNESSES]:
         for zip_ in (False, True):
             if in_xuniverse(a) and in_xuniverse(b) and not (sp["enum"] and enum_meets_container(a, b)):
@@ -2308,17 +2370,34 @@ def run(ctx):
             ctx.count("xcorr_skipped:outside_universe")
             continue
         if xset_alias(a, b, sp):
-            ctx.count("xcorr_skipped:set_alias(K2 memo)")
+            mjobs2.append((a, b, sp, zip_, thr, "memo", name))
             continue
         xjobs.append((a, b, sp, zip_, thr, "focus", name))
+    for a, b, sp in memo_pairs(rng, 1200 if thorough else 160):
+        if in_xuniverse(a) and in_xuniverse(b) and not (sp["enum"] and enum_meets_container(a, b)):
+            mjobs2.append((a, b, sp, rng.random() < 0.5, rng.choice([0, 0.33]), "memo", "memo:" + "+".join(active(sp))))
+            ojobs.append((a, b, sp, False, "rand", "memo", []))
     _XU = False
+    with mp.get_context("fork").Pool(core.NCPU) as pool:
+        mres2 = pool.map(xmodel_case, [(pack(j[0]), pack(j[1])) + tuple(j[2:]) for j in mjobs2], chunksize=16)
+    mcases = []
+    for (expr, obs, tile_ok, ntab, gexpr, gexp), job in zip(mres2, mjobs2):
+        a, b, sp, zip_, thr, fam, name = job
+        mcases.append((expr, obs, {"family": fam, "options": name, "spec": sp, "zip": zip_, "thr": thr, "t1": lit(a), "t2": lit(b)}))
+        ctx.count("memo_corr_result:%s" % ("raised:" + obs[1] if obs[0] == "raised" else ("empty" if not obs[1] else "entries")))
+    ctx.coq_cases("c11_xmemo", XHDR.replace("Options.YShow.", "Options.YShow Options.YMemo Options.YShowG."), mcases, shard=120,
+                  label="structural(extended universe, DeepHash memo table: ==-equal set members of different type)")
     with mp.get_context("fork").Pool(core.NCPU) as pool:
         xres = pool.map(xmodel_case, [(pack(j[0]), pack(j[1])) + tuple(j[2:]) for j in xjobs], chunksize=16)
         ores = pool.map(oracle_case, [(pack(j[0]), pack(j[1])) + tuple(j[2:]) for j in ojobs], chunksize=16)
     cases = []
-    for (expr, obs, tile_ok, ntab), job in zip(xres, xjobs):
+    gcases = []
+    for (expr, obs, tile_ok, ntab, gexpr, gexp), job in zip(xres, xjobs):
         a, b, sp, zip_, thr, fam, name = job
         cases.append((expr, obs, {"family": fam, "options": name, "spec": sp, "zip": zip_, "thr": thr, "t1": lit(a), "t2": lit(b)}))
+        if gexp is not None:      # only the raising runs can contradict the guard: the model must call them unsafe
+            gcases.append((gexpr, gexp, {"guard": "safe", "options": name, "spec": sp, "t1": lit(a), "t2": lit(b), "impl": obs}))
+            ctx.count("guard_observed:raising_runs_checked_unsafe")
         ctx.count("xcorr:%s" % fam)
         ctx.count("xcorr_result:%s" % ("raised:" + obs[1] if obs[0] == "raised" else ("empty" if not obs[1] else "entries")))
         if has_datetime(a, b):
@@ -2344,6 +2423,8 @@ def run(ctx):
         if not tile_ok:
             ctx.break_("correspondence", {"name": "opcode_validity", "case": lit(a) + " | " + lit(b)})
     ctx.coq_cases("c11_xstruct", XHDR, cases, shard=120, label="structural(extended universe: floats, datetimes)")
+    ctx.coq_cases("c11_xguard", XHDR.replace("Options.YShow.", "Options.YShow Options.YShowG."), gcases, shard=200,
+                  label="guard safe observed on raising runs (C11x_never_raises_partial)")
     report_oracle(ctx, ores, ojobs)
 
     # ---- direct oracle on the rich universe, all eleven options ----
